@@ -7,7 +7,7 @@ import c20
 EXTRA_VO = ["Exec/RunC19.vo"]
 
 HEADER = """From Coq Require Import ZArith List String.
-From ACV Require Import Model.Codec Model.SerdeTree Exec.RunC19.
+From ACV Require Import Model.ClaimCodec Model.Codec Model.SerdeTree Exec.RunC19.
 Import ListNotations. Open Scope string_scope."""
 
 TRUSTED_BASE = [
@@ -183,10 +183,12 @@ def explore(ctx):
             n = rng.randrange(2, 7)
             claims = [{"t": "r", "s": f"id-{k}"}] + [CC.claim(rng, rng.choice("hns")) for _ in range(n - 1)]
             disclosed = [i for i in range(1, n) if rng.random() < 0.5]
-            if k == 0:
-                disclosed = list(range(0, n))       # every message revealed: the shortest proof
             blind = [i for i in range(1, n) if rng.random() < 0.5] or [1]
-            specs.append({"op": "d_codec_samples", "suite": suite, "claims": claims, "disclosed": disclosed, "blind": blind})
+            spec = {"op": "d_codec_samples", "suite": suite, "claims": claims, "disclosed": disclosed, "blind": blind}
+            if k == 0:
+                spec["disclosed"] = list(range(0, n))       # every message revealed: the shortest proof
+                spec["norev"] = True
+            specs.append(spec)
     sres = _par(specs)
     dec_ops, dec_meta = [], []
     for spec, s in zip(specs, sres):
@@ -241,3 +243,175 @@ def _par(ops):
         return []
     with cf.ThreadPoolExecutor(max_workers=16) as ex:
         return list(ex.map(lambda o: C.run_exec([o])[0], ops))
+
+
+# ---------------------------------------------------------------------------------------------------
+# model parts: data-model trees, by-name round trip, skipped-field predicate, codec layouts
+# ---------------------------------------------------------------------------------------------------
+CT = {"h": "THashed", "n": "TNumber", "s": "TScalar", "r": "TRevocation", "e": "TEnumeration", "u": "TUnknown"}
+
+
+def cbytes_hex(h):
+    return C.cbytes(list(bytes.fromhex(h)))
+
+
+def cclaim(c):
+    t = c["t"]
+    if t == "h":
+        return f"(CHashed {cbytes_hex(c['hex'])} {C.cbool(c.get('pf', False))})"
+    if t == "n":
+        return f"(CNumber {C.cz(int(c['v']))})"
+    if t == "s":
+        return f"(CScalar {int(c['hex'], 16)})"
+    if t == "r":
+        return f"(CRevocation {C.cbytes(list(c['s'].encode()))})"
+    if t == "e":
+        return f"(CEnum {C.cbytes(list(c['dst'].encode()))} {int(c['v'])} {int(c['total'])})"
+    raise ValueError(t)
+
+
+def copt(v):
+    return "None" if v is None else f"(Some {C.cz(int(v))})"
+
+
+def cvalidator(v):
+    k = v["k"]
+    if k == "len":
+        return f"(VLength {copt(v.get('min'))} {copt(v.get('max'))})"
+    if k == "range":
+        return f"(VRange {copt(v.get('min'))} {copt(v.get('max'))})"
+    if k == "regex":
+        return f"(VRegex {C.cbytes(list(v['rx'].encode()))})"
+    return "(VAnyOne " + C.clist([cclaim(c) for c in v["claims"]]) + ")"
+
+
+def cclaim_schema(s, i):
+    label = s.get("label") or f"l{i}"
+    return ("{| cs_type := %s; cs_label := %s; cs_pf := %s; cs_validators := %s |}" %
+            (CT[s["t"]], C.cbytes(list(label.encode())), C.cbool(s.get("pf", True)), C.clist([cvalidator(v) for v in s.get("validators", [])])))
+
+
+def cschema(sp):
+    claims = sp["claims"]
+    labels = [(c.get("label") or f"l{i}") for i, c in enumerate(claims)]
+    ob = lambda x: "None" if x is None else f"(Some {C.cbytes(list(x.encode()))})"
+    return ("{| sch_id := %s; sch_label := %s; sch_desc := %s; sch_blind := %s; sch_indices := %s; sch_claims := %s |}" %
+            (C.cbytes(list(b"the-id")), ob(sp.get("label")), ob(sp.get("desc")),
+             C.clist([C.cbytes(list(labels[i].encode())) for i in sp.get("blind", [])]),
+             C.clist([C.cbytes(list(l.encode())) for l in labels]),
+             C.clist([cclaim_schema(c, i) for i, c in enumerate(claims)])))
+
+
+CODECS = {("ps", "pk"): "CPsPk", ("ps", "sk"): "CPsSk", ("ps", "sig"): "CPsSig", ("ps", "bsig"): "CPsSig", ("ps", "pok"): "CPsPok",
+          ("ps", "ctx"): "CPsCtx", ("bbs", "pok"): "CBbsPok"}
+
+
+def model_parts(ctx, rng, dec_meta, failures, bump, samples):
+    tier = ctx["tier"]
+    n_eval = 0
+    # ---- objects
+    objs = []   # (descr, d_tree op, coq obj term)
+    seen = set()
+
+    def add(descr, op, term):
+        k = json.dumps(op, sort_keys=True)
+        if k not in seen:
+            seen.add(k)
+            objs.append((descr, op, term))
+
+    for t in "hnsre":
+        add(f"claim_type {t}", {"op": "d_tree", "kind": "claim_type", "t": t}, f"OType {CT[t]}")
+    for sh in issue_shapes(rng, tier):
+        sp = sh["schema"]
+        for c in sh["claims"] + [c for b in sh["bad_claims"] for c in b]:
+            add("claim", {"op": "d_tree", "kind": "claim", "c": c}, f"OClaim {cclaim(c)}")
+        for i, cs in enumerate(sp["claims"]):
+            for v in cs.get("validators", []):
+                add("validator", {"op": "d_tree", "kind": "validator", "v": v}, f"OValidator {cvalidator(v)}")
+            add("claim_schema", {"op": "d_tree", "kind": "claim_schema", "claims": [dict(cs, label=cs.get("label") or f"l{i}")]},
+                f"OClaimSchema {cclaim_schema(cs, i)}")
+        add("credential_schema", {"op": "d_tree", "kind": "credential_schema", "label": sp.get("label"), "desc": sp.get("desc"),
+                                  "blind": sp.get("blind", []), "claims": sp["claims"], "id": "the-id"}, f"OSchema {cschema(sp)}")
+    # extra claims: extremes
+    for c in [{"t": "n", "v": str(-2 ** 63)}, {"t": "n", "v": str(2 ** 63 - 1)}, {"t": "h", "hex": "", "pf": True}, {"t": "h", "hex": "", "pf": False},
+              {"t": "h", "hex": "ff00", "pf": False}, {"t": "s", "hex": "%064x" % 0}, {"t": "s", "hex": "%064x" % (c20.c18.R - 1)},
+              {"t": "e", "dst": "", "v": 255, "total": 2 ** 64 - 1}, {"t": "r", "s": ""}]:
+        add("claim", {"op": "d_tree", "kind": "claim", "c": c}, f"OClaim {cclaim(c)}")
+    for v in [{"k": "len", "min": None, "max": None}, {"k": "range", "min": None, "max": None}, {"k": "len", "min": 0, "max": 2 ** 64 - 1},
+              {"k": "anyone", "claims": []}, {"k": "regex", "rx": ""}]:
+        add("validator", {"op": "d_tree", "kind": "validator", "v": v}, f"OValidator {cvalidator(v)}")
+    impl = _par([o[1] for o in objs])
+    terms = []
+    for d, op, t in objs:
+        terms += [f"KTree true ({t})", f"KTree false ({t})", f"KRt true ({t})", f"KRt false ({t})", f"KSkips ({t})"]
+    model = C.run_model("C19", HEADER, terms, shard_size=200, tag="tree")
+    for k, ((d, op, t), r) in enumerate(zip(objs, impl)):
+        if r.get("r") != "ok":
+            raise C.Infra("d_tree: " + json.dumps(r)[:300])
+        m_hr, m_bin, rt_hr, rt_bin, skips = [x.strip() for x in model[5 * k: 5 * k + 5]]
+        n_eval += 1
+        bump("M:tree:" + d.split()[0])
+        for which, mi, ii in (("human-readable", m_hr, r["hr"]), ("binary", m_bin, r["bin"])):
+            if mi != ii:
+                failures.append({"class": None, "witness": False,
+                                 "text": f"correspondence broken: {which} data-model tree of {d}: impl={ii[:300]} model={mi[:300]}",
+                                 "case": {"op": op, "coq_term": t, "impl": ii, "model": mi}})
+        if m_hr != "panic" and rt_hr != "1" or m_bin != "panic" and rt_bin != "1":
+            failures.append({"class": None, "witness": False, "text": f"model: decode-by-name after serialise does not return {d}", "case": {"op": op, "coq_term": t}})
+        # positional format: the model's skipped-field predicate against the BARE round trip of the implementation
+        bare_ok = r["bare"] == "ok"
+        if d.split()[0] in ("validator", "claim_schema", "credential_schema"):
+            bump(f"M:bare:{d.split()[0]}:skips={skips}:impl={r['bare']}")
+            if (skips == "0") != bare_ok:
+                failures.append({"class": None, "witness": False,
+                                 "text": f"correspondence broken: BARE round trip of {d} is {r['bare']} but the model's skipped-field predicate says {skips}",
+                                 "case": {"op": op, "coq_term": t}})
+        elif not bare_ok:
+            failures.append({"class": None, "witness": True, "text": f"BARE round trip of {d} fails: {r['bare']}", "case": {"op": op}})
+    samples.append({"part": "tree", "object": objs[-1][0], "impl_hr": impl[-1]["hr"][:160], "model_hr": model[-5].strip()[:160]})
+
+    # ---- hand-written codecs against the layout model: the honest encodings and mutations of them
+    cases = []
+    for spec, name, v in dec_meta:
+        cname = CODECS.get((spec["suite"], name))
+        if cname is None:
+            continue
+        b = bytes.fromhex(v["b"])
+        muts = [b, b[:-1], b[:-32], b[:-48], b + b"\x00", b + b[-32:], b[:48], b[:96], b[:112], b[:144], b[:208], b[:256], b[:288], b""]
+        for _ in range(40 if tier == "thorough" else 10):
+            m = bytearray(b)
+            k = rng.randrange(5)
+            p = rng.randrange(len(m))
+            if k == 0:
+                m[p] ^= 1 << rng.randrange(8)
+            elif k == 1:
+                m = m[:p]
+            elif k == 2:
+                m[p:p + 32] = b"\xff" * min(32, len(m) - p)
+            elif k == 3 and cname == "CPsPk":
+                q = rng.choice([192, 192 + 4 + 96 * ((len(m) - 200) // 144)]) if len(m) > 300 else 192
+                m[q:q + 4] = rng.choice([b"\x00\x00\x00\x00", b"\x00\x00\x00\x01", b"\xff\xff\xff\xff", b"\x00\x00\x01\x00"])
+            else:
+                m = m + bytes(rng.randrange(256) for _ in range(rng.choice([1, 16, 32, 48])))
+            muts.append(bytes(m))
+        for mb in muts:
+            cases.append((spec["suite"], name, cname, mb))
+    dec = _par([{"op": "d_codec_dec", "suite": s, "codec": n, "b": mb.hex()} for s, n, _, mb in cases])
+    pts = _par([{"op": "d_codec_points", "b": mb.hex()} for _, _, _, mb in cases])
+    terms = []
+    for (s, n, cname, mb), p in zip(cases, pts):
+        t48 = C.clist([cbytes_hex(x) for x in p["g1"]])
+        t96 = C.clist([cbytes_hex(x) for x in p["g2"]])
+        terms.append(f"KCodec {cname} {t48} {t96} {C.cbytes(list(mb))}")
+    model = C.run_model("C19", HEADER, terms, shard_size=40, tag="codec") if terms else []
+    for (s, n, cname, mb), d, m in zip(cases, dec, model):
+        n_eval += 1
+        il = "ok " + d["re"] if d["r"] == "ok" else d["r"]
+        bump(f"M:codec:{s}:{n}:{d['r']}")
+        if il != m.strip():
+            failures.append({"class": None, "witness": d["r"] == "panic",
+                             "text": f"correspondence broken: {s} {n}.from_bytes on {len(mb)} bytes: impl={il[:120]} model={m.strip()[:120]}",
+                             "case": {"op": {"op": "d_codec_dec", "suite": s, "codec": n, "b": mb.hex()}}})
+    if cases:
+        samples.append({"part": "codec-model", "codec": cases[0][1], "bytes": len(cases[0][3]), "impl": dec[0]["r"], "model": model[0].strip()[:40]})
+    return {"evaluations": n_eval}
